@@ -104,10 +104,13 @@ class LogfileHandler(mlzlog.LogfileHandler):
     def doRollover(self):
         super().doRollover()
         if self.max_days:
-            # keep only the last max_days files
+            # keep only the last max_days log files (the date in the name sorts chronologically)
+            prefix = self.rootname + '-'
             with os.scandir(dirname(self.baseFilename)) as it:
-                files = sorted(entry.path for entry in it if entry.name != 'current')
-            for filepath in files[-self.max_days:]:
+                files = sorted(entry.path for entry in it
+                               if entry.is_file() and entry.name.startswith(prefix)
+                               and entry.name.endswith('.log'))
+            for filepath in files[:-self.max_days]:
                 os.remove(filepath)
 
 
